@@ -72,9 +72,10 @@ def dense_tensor(dims, fmt, base):
 
 def menu(tier):
     """Non-broadcast programs (TensorMethod refuses broadcast targets), + and * only."""
-    progs = space.enumerate_programs(2, 4 if tier == "quick" else 5, ops="+*")
+    progs = space.enumerate_programs(2, 5, ops="+*")
+    progs += space.enumerate_programs(3, 3, ops="+*", min_leaves=3)
     if tier != "quick":
-        progs += space.enumerate_programs(3, 3, ops="+*", min_leaves=3)
+        progs += space.enumerate_programs(3, 4, ops="+*", min_leaves=3, repeats=False, min_total_order=4)
     out = []
     for p in progs:
         rhs = {i for l in space.tree_leaves(p[2]) if l[0] == "t" for i in l[2]}
@@ -239,8 +240,9 @@ def run(tier, seed):
         names = list(orders)
         choices = [("dense", {n: all_formats(orders[n])[0] for n in names}),
                    ("sparse", {n: all_formats(orders[n])[-1] for n in names})]
+        choices.append(("mixed", {n: all_formats(orders[n])[len(all_formats(orders[n])) // 2] for n in names}))
         if tier != "quick":
-            choices.append(("mixed", {n: all_formats(orders[n])[len(all_formats(orders[n])) // 2] for n in names}))
+            choices.append(("mixed2", {n: all_formats(orders[n])[len(all_formats(orders[n])) // 3] for n in names}))
         nslots = sum(o for n, o in orders.items() if n != names[0])
         for _tag, fm in choices:
             units.append({"prog": space.prog_json(p), "formats": {n: fmt_str(fm[n]) for n in names},
@@ -263,8 +265,8 @@ def run(tier, seed):
     return run.finish(
         states=calls, transitions=calls, traces_validated=run.counters["consistent calls"], evaluations=calls,
         distinct_nontrivial=refused,
-        rule="every non-broadcast assignment of the L<=2,S<=4 (+,*) space incl. tensors used twice with different "
-             "index lists, in all-dense and all-compressed-reversed formats, compiled once with tensor_method; "
+        rule="every non-broadcast assignment of the L<=2,S<=5 and L=3,S<=3 (+,*) spaces incl. tensors used twice with "
+             "different index lists, in all-dense, all-compressed-reversed and one mixed format assignment, compiled once with tensor_method; "
              "called with EVERY dimension vector in {1,2,3}^(all operand dimensions) - consistent ones must return "
              "the reference value (raw arrays), inconsistent ones must raise TypeError/ValueError/problem errors with "
              "the kernel entry counter unchanged - and with every single deviation: order +-1, every other mode "
